@@ -29,6 +29,7 @@ type c07Case struct {
 	// [0,sid,complete] client message | [1,sid,ok] scripted read on sid's latest socket | [2,ms] sleep | [3] wait
 	// [4,n] next n dials fail | [5,n] next n hooks fail | [6,n] next n sends fail | [7,sid,n] next n writes on sid's socket fail
 	// [8] connection lost | [9,n] the next n logger.Close calls take 10 ms
+	// [10,ms] the next UDP() call takes ms of the fake clock | [11,ms] the next Hook() call takes ms
 }
 
 func TestVerifC07(t *testing.T) {
@@ -37,6 +38,8 @@ func TestVerifC07(t *testing.T) {
 	})
 	out := vOpenOut(t, "VERIF_OUT")
 	defer out.Close()
+	c07Pauser = newVFPauser(250 * time.Microsecond)
+	defer c07Pauser.stop()
 	for i, raw := range vReadCases(t) {
 		var c c07Case
 		if err := json.Unmarshal(raw, &c); err != nil {
@@ -60,8 +63,12 @@ func TestVerifC07(t *testing.T) {
 	}
 }
 
+var c07Pauser *vfPauser // lives outside the bubbles
+
 func c07Run(c c07Case, res map[string]any) {
 	env := newVFEnv()
+	env.timeoutMs = int64(c.TimeoutMs)
+	env.pauser = c07Pauser
 	timeout := time.Duration(c.TimeoutMs) * time.Millisecond
 	sm := newUDPSessionManager(env, vfLogger{env}, timeout)
 	runDone := make(chan struct{})
@@ -70,7 +77,7 @@ func c07Run(c c07Case, res map[string]any) {
 		close(runDone)
 	}()
 	synctest.Wait()
-	env.quiet()
+	env.quietCount(sm.Count())
 
 	latest := func(sid uint32) *vfConn {
 		env.mu.Lock()
@@ -105,7 +112,7 @@ func c07Run(c c07Case, res map[string]any) {
 			time.Sleep(time.Duration(op[1]) * time.Millisecond)
 		case 3:
 			synctest.Wait()
-			env.quiet()
+			env.quietCount(sm.Count())
 		case 4:
 			env.mu.Lock()
 			env.dialFail = op[1]
@@ -128,6 +135,14 @@ func c07Run(c c07Case, res map[string]any) {
 			env.mu.Lock()
 			env.slowClose = op[1]
 			env.mu.Unlock()
+		case 10:
+			env.mu.Lock()
+			env.slowDial = int64(op[1])
+			env.mu.Unlock()
+		case 11:
+			env.mu.Lock()
+			env.slowHook = int64(op[1])
+			env.mu.Unlock()
 		case 8:
 			if !lost {
 				lost = true
@@ -140,6 +155,13 @@ func c07Run(c c07Case, res map[string]any) {
 	}
 	synctest.Wait()
 	env.quiet()
+	// the receive loop may still be inside slow dials with datagrams queued behind them
+	tm := time.NewTimer(300 * time.Second)
+	select {
+	case <-runDone:
+	case <-tm.C:
+	}
+	tm.Stop()
 	time.Sleep(2500 * time.Millisecond)
 	synctest.Wait()
 	env.quiet()
@@ -176,7 +198,9 @@ func c07Run(c c07Case, res map[string]any) {
 		}
 	}
 	c07Verdict(log, int64(c.TimeoutMs), slack, fail)
+	c07Fresh(log, slack, fail)
 	res["log"] = log
+	res["overlaps"] = env.overlaps
 	res["count"] = count
 	res["closes"] = closes
 	res["ok"] = ok
@@ -277,4 +301,206 @@ func c07Verdict(log []vfEv, timeout int64, slack int64, fail func(string)) {
 			}
 		}
 	}
+}
+
+// The clauses "a later datagram with the same id starts a fresh session on a new socket" and "no socket is
+// created for a session after it exited", evaluated on the boundary log of the implementation alone, plus the
+// table size sampled at every quiescent point.
+//
+// What is known about a session id from the log:
+//   absent   no entry in the table: initially, and once a Close event of the id has settled, i.e. the table
+//            delete that follows logger.Close on the same thread is known to be done: the fake clock has advanced
+//            past the Close event (past +10 ms when that logger.Close call was a slow one), or synctest.Wait() has
+//            returned since (every goroutine durably blocked; a mutex wait is not), or the closer was the receive
+//            loop itself (Close with an error right after its failed hook / dial) and it has received again
+//   frag     an entry without a socket (only never-completed fragments were fed to a fresh entry)
+//   live     an entry whose socket was dialed; no Close event, no socket close since
+//   closing  Close event or socket close seen, not settled
+//   unknown  a datagram raced with closing (it went to the dead entry still in the table, or to a fresh one)
+// A complete datagram received while the id is absent (or frag, outside any sweep) must, before the receive
+// loop receives again: call the hook; if the hook passes, log New and dial; if the dial succeeds, be written to
+// exactly that new socket; and the session must not be reported closed before the dial returns.
+func c07Fresh(log []vfEv, slack int64, fail func(string)) {
+	const (
+		absent = iota
+		frag
+		dialing
+		live
+		closing
+		unknown
+	)
+	const interval = int64(idleCleanupInterval / time.Millisecond)
+	type st struct {
+		k      int
+		sock   int
+		logT   int64 // closing: time of the Close event, -1 before it
+		slow   bool
+		byRL   bool
+		endedT int64 // when the previous session of this id was reported closed (-1: never had one)
+	}
+	ids := map[uint32]*st{}
+	get := func(sid uint32) *st {
+		if ids[sid] == nil {
+			ids[sid] = &st{k: absent, sock: -1, logT: -1, endedT: -1}
+		}
+		return ids[sid]
+	}
+	sockOwner := map[int]uint32{}
+	seenSock := map[int]bool{}
+	// expectation opened by a complete datagram for an id without a session
+	type want struct {
+		sid                     uint32
+		tag, t, endedT          int64
+		hook, hookOk, nw        bool
+		dial, dialOk, wrote     bool
+		sock                    int
+		closedBeforeDial, rlErr bool
+		was                     int
+	}
+	var w *want
+	settle := func(x *st) {
+		x.k, x.sock, x.logT, x.slow, x.byRL = absent, -1, -1, false, false
+	}
+	finish := func() {
+		if w == nil {
+			return
+		}
+		what := fmt.Sprintf("complete datagram (tag %d) for session id %d received at %d ms", w.tag, w.sid, w.t)
+		if w.endedT >= 0 {
+			what += fmt.Sprintf(", after the previous session of that id was reported closed at %d ms,", w.endedT)
+		} else if w.was == frag {
+			what += ", for an entry that never had a socket,"
+		}
+		switch {
+		case !w.hook:
+			fail(what + " did not start a fresh session: no hook call, no New event, no dial (it went to a dead entry or was dropped)")
+		case w.hookOk && !w.nw:
+			fail(what + " passed the hook but no New event was logged")
+		case w.hookOk && !w.dial:
+			fail(what + " passed the hook but no socket was dialed")
+		case w.dialOk && !w.wrote:
+			fail(what + fmt.Sprintf(" was not written to the new socket %d", w.sock))
+		}
+		w = nil
+	}
+	for _, ev := range log {
+		// settle by the clock
+		for _, x := range ids {
+			if x.k == closing && x.logT >= 0 {
+				d := int64(0)
+				if x.slow {
+					d = 10
+				}
+				if ev.T > x.logT+d || (ev.K == "quiet" && !x.slow) {
+					settle(x)
+				}
+			}
+		}
+		switch ev.K {
+		case "recv", "recverr":
+			finish()
+			for _, x := range ids {
+				if x.k == closing && x.logT >= 0 && x.byRL {
+					settle(x)
+				}
+			}
+			if ev.K == "recverr" {
+				return // cleanup(false) follows: covered by the exit checks
+			}
+			x := get(ev.Sid)
+			switch x.k {
+			case absent:
+				if ev.Ok {
+					w = &want{sid: ev.Sid, tag: ev.Tag, t: ev.T, endedT: x.endedT, sock: -1, was: absent}
+					x.k = dialing
+				} else {
+					x.k = frag
+				}
+			case frag:
+				// a sweep running at this very moment may have closed the entry without any record yet
+				if ev.Ok && ev.T%interval > slack {
+					w = &want{sid: ev.Sid, tag: ev.Tag, t: ev.T, endedT: -1, sock: -1, was: frag}
+					x.k = dialing
+				} else if ev.Ok {
+					x.k = unknown
+				}
+			case closing:
+				if !ev.Ok {
+					x.k = unknown // a fresh fragment-only entry may exist now
+				}
+				// a complete datagram: either it is followed by hook/New/dial (fresh entry) or it went to the dead entry
+			}
+		case "hook":
+			if w != nil && ev.Sid == w.sid {
+				w.hook, w.hookOk = true, ev.Ok
+				if !ev.Ok {
+					w.rlErr = true
+				}
+			}
+		case "new":
+			if w != nil && ev.Sid == w.sid {
+				w.nw = true
+			}
+		case "dial":
+			x := get(ev.Sid)
+			if w != nil && ev.Sid == w.sid {
+				w.dial, w.dialOk, w.sock = true, ev.Ok, ev.Sock
+				if !ev.Ok {
+					w.rlErr = true
+				}
+				if w.closedBeforeDial && ev.Ok {
+					fail(fmt.Sprintf("session %d was reported closed while its first dial was still in progress (datagram received at %d ms, dial returned at %d ms, ok=%v): a socket is created for a session that already exited", ev.Sid, w.t, ev.T, ev.Ok))
+				}
+			}
+			if ev.Ok {
+				if seenSock[ev.Sock] {
+					fail(fmt.Sprintf("socket %d handed out twice", ev.Sock))
+				}
+				seenSock[ev.Sock] = true
+				sockOwner[ev.Sock] = ev.Sid
+				if x.k == dialing || x.k == unknown || x.k == frag || x.k == absent {
+					x.k, x.sock = live, ev.Sock
+				} else if x.k == closing {
+					// fresh entry created by a datagram that arrived after the (unsettled) delete
+					x.k, x.sock, x.logT, x.slow, x.byRL = live, ev.Sock, -1, false, false
+				}
+			}
+		case "write":
+			if w != nil && w.dialOk && ev.Sock == w.sock && ev.Tag == w.tag {
+				w.wrote = true
+			}
+		case "close":
+			if sid, has := sockOwner[ev.Sock]; has {
+				x := get(sid)
+				if x.k == live && x.sock == ev.Sock {
+					x.k, x.logT = closing, -1
+				}
+			}
+		case "logclose":
+			x := get(ev.Sid)
+			if w != nil && ev.Sid == w.sid && !w.dial && !w.rlErr {
+				w.closedBeforeDial = true
+			}
+			x.byRL = w != nil && ev.Sid == w.sid && w.rlErr && !ev.Ok
+			x.k, x.logT, x.slow, x.endedT = closing, ev.T, ev.A == "slow", ev.T
+		case "quiet":
+			if ev.Sock < 0 {
+				break
+			}
+			exp, definite := 0, true
+			for _, x := range ids {
+				switch x.k {
+				case absent:
+				case frag, dialing, live:
+					exp++
+				default:
+					definite = false
+				}
+			}
+			if definite && exp != ev.Sock {
+				fail(fmt.Sprintf("Count() = %d at the quiescent point at %d ms, but %d session id(s) have a live session then", ev.Sock, ev.T, exp))
+			}
+		}
+	}
+	finish()
 }
